@@ -67,15 +67,89 @@ fn run_header(k: usize) -> String {
     c.verif_header().join(",")
 }
 
+/// Observational derivation of the lookup data (used by the translator when a source pattern no longer
+/// matches, e.g. the table became a `match` or a const fn): each of the 256 byte values is put through the
+/// public entry points.
+fn observe(what: &str) -> String {
+    let mut v: Vec<String> = vec![];
+    for b in 0u16..256 {
+        let b = b as u8;
+        let x = match what {
+            "nt4k" => KmerGenerator::new(&[b], 1).next().map(|(f, _)| f).unwrap_or(4),
+            // canonical code of "A?" is the code of ?: rc("A?") = (3-?)*4+3 is never smaller
+            "nt4m" => MinimiserGenerator::new(&[b'A', b], 2, 2).next().map(|(x, _, _)| x).unwrap_or(4),
+            "nt4km" => KmerMinimiserGenerator::new(&[b'A', b], 2, 2).next().map(|(x, _, _, _)| x).unwrap_or(4),
+            "cgr" => {
+                let c = composition::cgr::CgrComputer::new("/nonexistent.fa".into(), "/nonexistent.out".into(), 1);
+                match c.verif_vectorise_one(&[b]) {
+                    // point = (corner + 0.5) / 2
+                    Ok(p) if p.len() == 1 => (((2.0 * p[0].0 - 0.5) as u64) << 1) | ((2.0 * p[0].1 - 0.5) as u64),
+                    _ => 4,
+                }
+            }
+            _ => 4,
+        };
+        v.push(x.to_string());
+    }
+    v.join(",")
+}
+
+fn bits(v: &[f64]) -> String {
+    v.iter().map(|x| x.to_bits().to_string()).collect::<Vec<_>>().join(",")
+}
+
+fn run_oligo(k: usize, norm: bool, s: &[u8]) -> String {
+    let mut c = composition::oligo::OligoComputer::new("/nonexistent.fa".into(), "/nonexistent.out".into(), k);
+    c.set_norm(norm);
+    bits(&c.verif_vectorise_one(s))
+}
+
+fn run_covrow(k: usize, bs: usize, bc: usize, norm: bool, table: &str, s: &[u8]) -> String {
+    let mut c = coverage::CovComputer::new("/nonexistent.fa".into(), "/nonexistent.dir".into(), k, bs, bc);
+    c.set_norm(norm);
+    let mut t = std::collections::HashMap::new();
+    if table != "_" {
+        for e in table.split(',') {
+            let mut it = e.split(':');
+            let x: u64 = it.next().unwrap().parse().unwrap();
+            let n: u32 = it.next().unwrap().parse().unwrap();
+            t.insert(x, n);
+        }
+    }
+    bits(&c.verif_vectorise_one(s, &t))
+}
+
+fn run_cgr(size: usize, s: &[u8]) -> String {
+    let c = composition::cgr::CgrComputer::new("/nonexistent.fa".into(), "/nonexistent.out".into(), size);
+    match c.verif_vectorise_one(s) {
+        Ok(p) => p.iter().map(|(x, y)| format!("{}:{}", x.to_bits(), y.to_bits())).collect::<Vec<_>>().join(","),
+        Err(_) => "ERR".into(),
+    }
+}
+
+fn run_ocgr(k: usize, size: usize, norm: bool, s: &[u8]) -> String {
+    let mut c = composition::oligocgr::OligoCgrComputer::new("/nonexistent.fa".into(), "/nonexistent.out".into(), k, size);
+    c.set_norm(norm);
+    match c.verif_vectorise_one(s) {
+        Ok(p) => p.iter().map(|((x, y), f)| format!("{}:{}:{}", x.to_bits(), y.to_bits(), f.to_bits())).collect::<Vec<_>>().join(","),
+        Err(_) => "ERR".into(),
+    }
+}
+
 fn exec(line: &str, scratch: &str) -> String {
     let p: Vec<&str> = line.split(' ').collect();
     match p[0] {
+        "observe" => observe(p[1]),
         "kg" => run_kg(p[1].parse().unwrap(), &unhex(p[2])),
         "rc" => KmerGenerator::rev_comp(p[2].parse().unwrap(), p[1].parse().unwrap()).to_string(),
         "dec" => kmer::numeric_to_kmer(p[2].parse().unwrap(), p[1].parse().unwrap()),
         "posmap" => run_posmap(p[1].parse().unwrap()),
         "header" => run_header(p[1].parse().unwrap()),
         "mg" => run_mg(p[1].parse().unwrap(), p[2].parse().unwrap(), &unhex(p[3])),
+        "oligo" => run_oligo(p[1].parse().unwrap(), p[2] == "1", &unhex(p[3])),
+        "covrow" => run_covrow(p[1].parse().unwrap(), p[2].parse().unwrap(), p[3].parse().unwrap(), p[4] == "1", p[5], &unhex(p[6])),
+        "cgr" => run_cgr(p[1].parse().unwrap(), &unhex(p[2])),
+        "ocgr" => run_ocgr(p[1].parse().unwrap(), p[2].parse().unwrap(), p[3] == "1", &unhex(p[4])),
         "kmg" => run_kmg(p[1].parse().unwrap(), p[2].parse().unwrap(), &unhex(p[3])),
         _ => fileops::exec(&p, scratch),
     }
